@@ -86,7 +86,9 @@ class C04(DocProp):
     # a template tag written over two source lines at the end of its paragraph
     MULTILINE_TAG_TEXTS = ["Intro text {% callout type=\"note\"\ntitle=\"Loading...please wait\" %}\n",
                            "{% field kind=\"string\"\nlabel=\"Name... it's here\" %}\n",
-                           "Some words <!-- a comment...\nover two lines it's -->\n"]
+                           "Some words <!-- a comment...\nover two lines it's -->\n",
+                           # what looks like a hard line break inside a tag written over two lines is part of the tag
+                           "Intro text {% callout type=\"note\"  \ntitle=\"two words\" %} after it.\n", "See {# first line\\\nsecond line #} here.\n"]
 
     def cases(self, tier, seed, shard, nshards):
         for r, c in self.doc_cases(tier, seed, shard, nshards):
